@@ -470,7 +470,7 @@ var extPure = map[string]bool{
 	"github.com/open-policy-agent/opa/rego.New": true, "github.com/open-policy-agent/opa/rego.EvalInput": true, "github.com/open-policy-agent/opa/rego.Rego.PrepareForEval": true,
 	"github.com/open-policy-agent/opa/rego.PreparedEvalQuery.Eval": true, "context.Background": true,
 	"github.com/piprate/json-gold/ld.NewJsonLdProcessor": true, "github.com/piprate/json-gold/ld.NewJsonLdOptions": true, "github.com/piprate/json-gold/ld.JsonLdProcessor.Flatten": true,
-	"bytes.NewBuffer": true, "encoding/json.NewDecoder": true, "encoding/json.Decoder.UseNumber": true, "encoding/json.NewEncoder": true,
+	"bytes.NewBuffer": true, "bytes.NewBufferString": true, "encoding/json.NewDecoder": true, "encoding/json.Decoder.UseNumber": true, "encoding/json.NewEncoder": true,
 	"encoding/json.Encoder.SetIndent": true, "encoding/json.Encoder.SetEscapeHTML": true, "encoding/json.Encoder.Encode": true, "bytes.Buffer.String": true,
 	"os.Stat": true, "os.IsNotExist": true, "io/ioutil.ReadFile": true, "os.ReadFile": true, "sort.Sort": true, "sort.Strings": true,
 }
